@@ -59,7 +59,21 @@ def run(ctx):
                 payload = body
             for kk, v in hs:
                 head += ('%s: %s\r\n' % (kk, v)).encode()
-            add('valid-' + framing, 'send:%s:close' % (head + b'\r\n' + payload).hex(), rng.choice(reqs), (code, body, framing))
+            full = head + b'\r\n' + payload
+            add('valid-' + framing, 'send:%s:close' % full.hex(), rng.choice(reqs), (code, body, framing))
+            # a few cuts of every generated response as well (framed ones only: a close-delimited body has no end to miss)
+            if framing != 'close' and len(full) > 1:
+                for i in rng.sample(range(len(full)), 2 if thorough else 1):
+                    add('cut', 'send:%s:close' % full[:i].hex(), rng.choice(reqs), (full, i))
+        # every chunking of short bodies (all compositions), the chunked response must pass through as a plain body
+        for blen in range(0, 7 if thorough else 5):
+            body = bytes(rng.getrandbits(8) for _ in range(blen))
+            for comp in G.compositions(blen):
+                payload, _ = G.chunked_encode(rng, body, comp)
+                add('valid-chunked', 'send:%s:close' % (b'HTTP/1.1 200 OK\r\nTransfer-Encoding: chunked\r\n\r\n' + payload).hex(),
+                    rng.choice(reqs), (200, body, 'chunked'))
+        # the upstream accepts the connection and then says nothing at all
+        add('stall', 'send::stall', reqs[0], (b'', 0))
         for garbage in (b'', b'garbage', b'\r\n\r\n', b'HTTP/1.1 999 Nope\r\n\r\n', b'HTTP/1.1 200 OK\r\nNoColon\r\n\r\n',
                         'HTTP/1.1 200 OK\r\nX: €'.encode(), b'HTTP/1.1 200 OK\r\nContent-Length: 99999999999999\r\n\r\nab',
                         b'HTTP/1.1 200 OK\r\nTransfer-Encoding: chunked\r\n\r\nffffffffffffffff\r\nab', b'\xff\xfe\x00'):
